@@ -122,6 +122,26 @@ def extra(rep, cov, tier, rng):
         elif mo[:3] != do[:3]:
             rep.violation("sweep of %s over [%d,%d): crate output checksum differs from the model's" % (names[fnid], lo, hi),
                           {"cases": [case], "broken": ["correspondence %s" % names[fnid]]}, False)
+    # montgomery_reduce: contiguous windows at both ends of the documented domain, around 0 and at random places, with the
+    # predicate evaluated inside the harness on every input (a defect whose inputs are a 2^-17 fraction of the top of the domain
+    # has hundreds of witnesses in a window of 2^25 inputs there)
+    from dlib import crate
+    E = (1 << 31) * Q
+    W = 1 << (22 if tier == "quick" else 26)
+    wins = [(-E, -E + W), (E - W, E), (-W // 2, W // 2), (E - (1 << 15) * Q - W // 2, E - (1 << 15) * Q + W // 2), (-E + (1 << 15) * Q - W // 2, -E + (1 << 15) * Q + W // 2)]
+    for _ in range(3 if tier == "quick" else 24):
+        lo = rng.randrange(-E, E - W); wins.append((lo, lo + W))
+    from concurrent.futures import ThreadPoolExecutor
+    with ThreadPoolExecutor(max_workers=16) as ex:
+        res = list(ex.map(lambda w: [crate([("mont_sweep", "-", [w[0], w[1]])], dev=dv)[0] for dv in (True, False)], wins))
+    for (lo, hi), rr in zip(wins, res):
+        for dv, r in zip(("checked", "release"), rr):
+            total += hi - lo
+            if r is None or r[1] != 0 or r[2] != 0:
+                rep.violation("montgomery_reduce violates its specification (or panics) inside its documented domain at input %s (%s build); %s violations and %s panics in [%d,%d)"
+                              % ("?" if r is None else r[3], dv, "?" if r is None else r[2], "?" if r is None else r[1], lo, hi),
+                              {"cases": [{"fn": "montgomery_reduce", "copy": "-", "args": [str(0 if r is None else r[3])]}]}, True)
+                break
     cov["swept_inputs"] = total
     cov["caddq_exhaustive"] = (tier == "thorough")
     cov["evaluations"] = cov.get("evaluations", 0) + total
